@@ -65,17 +65,25 @@ Section Cur.
   Variable batch_header_valid : list rtree -> rtree -> bool.
   Variable file_valid : rtree -> bool.
 
-  Definition post_cur : list rtree -> rtree -> pres :=
-    post json_post_table (t_rm_credit offset_table)
-         (t_deb_chk offset_table) (t_deb_sav offset_table) (t_cre_chk offset_table) (t_cre_sav offset_table) new_entry_detail
-         opts_merge_fields (t_credit offset_table) (t_debit offset_table)
-         new_batch_control new_adv_batch_control new_file_control zero_adv_file_control zero_adv_file_control
-         file_header_valid batch_header_valid file_valid.
+  Definition env_cur : penv :=
+    mkpenv json_post_table (t_rm_credit offset_table)
+           (t_deb_chk offset_table) (t_deb_sav offset_table) (t_cre_chk offset_table) (t_cre_sav offset_table) new_entry_detail
+           opts_merge_fields (t_credit offset_table) (t_debit offset_table)
+           new_batch_control new_adv_batch_control new_file_control zero_adv_file_control zero_adv_file_control
+           file_header_valid batch_header_valid file_valid.
+
+  Definition post_cur : list rtree -> rtree -> pres := post env_cur.
 
   (* FileFromJSONWith(document, passed) on the JSON tree *)
   Definition from_json (passed : list rtree) (j : json) : pres :=
     post_cur passed (view hidp_cur T_File (dec T_File (start T_File) j)).
 End Cur.
+
+(* the conditions of the round-trip theorem, evaluated on a file value *)
+Definition keep_ok (v : val) : bool := safe_sel (sel_of keep_fields) T_File (start T_File) v.
+Definition ready_run (hv : bool) (passed : list rtree) (v : val) : bool :=
+  typed T_File v && keep_ok v
+  && ready (env_cur (fun _ _ => hv) (fun _ _ => true) (fun _ => true)) passed (view hidp_cur T_File v).
 
 Definition tree_of_file (v : val) : rtree := view hidp_cur T_File v.
 Definition to_json (v : val) : json := enc T_File v.
